@@ -69,17 +69,44 @@ def scalars(cs):
     return [int.from_bytes(rb[o:o + 32], "big") for o in cs["offs"]]
 
 
+HEXOUT_H = ("match %s with Some (a, b, c, f, g) => Some (a, b, c, map N.to_hex_uint f, map N.to_hex_uint g) | None => None end")
+HEXOUT_V = ("match %s with Some (_, f, g) => Some (map N.to_hex_uint f, map N.to_hex_uint g) | None => None end")
+
+
+def parse_hexout(body):
+    """'Some (true, .., [D1 (D2 ..Nil); ..], [..])' -> (flags, [ints], [ints]); 'None' -> None.
+    Coq prints a decimal->binary conversion of a 250-bit number in ~30 ms but a Hexadecimal.uint
+    digit chain instantly, which matters for hundreds of frames."""
+    import re
+    body = body.strip()
+    if body.startswith("None"):
+        return None
+    flags = re.findall(r"\b(true|false)\b", body.split("[")[0])
+    groups = re.findall(r"\[([^\[\]]*)\]", body)
+    lists = []
+    for g in groups:
+        xs = []
+        for el in g.split(";"):
+            digs = re.findall(r"\bD([0-9a-f])\b", el)
+            if digs:
+                xs.append(int("".join(digs), 16))
+            elif "Nil" in el:
+                xs.append(0)
+        lists.append(xs)
+    return flags, lists
+
+
 def honest_expr(cs):
     k = kind(cs["k"])
-    return "x_honest %s %s %s %s %s (scalar_from_bytes_bls %s) %s" % (
+    return HEXOUT_H % "x_honest %s %s %s %s %s (scalar_from_bytes_bls %s) %s" % (
         MODELLED[cs["p"]], k, ctx_expr(k, cs["ctx"]), zl([int(x, 16) for x in cs["pub"]]),
         zl([int(x, 16) for x in cs["wit"]]), nl(bytes.fromhex(cs["chal"])), zl(scalars(cs)))
 
 
 def verify_expr(cs, pubs, resp):
     k = kind(cs["k"])
-    return "x_verify %s %s %s %s %s %s" % (MODELLED[cs["p"]], k, ctx_expr(k, cs["ctx"]), zl(pubs),
-                                            nl(bytes.fromhex(cs["chal"])), zl(resp))
+    return HEXOUT_V % ("x_verify %s %s %s %s %s %s" % (MODELLED[cs["p"]], k, ctx_expr(k, cs["ctx"]), zl(pubs),
+                                                       nl(bytes.fromhex(cs["chal"])), zl(resp)))
 
 
 def flat_ints(t, out):
@@ -158,7 +185,7 @@ def run(ctx):
         ctx.violation({"layer": "harness build against /repo", "error": binp},
                       "harness no longer builds against the implementation", no_input=True)
         return
-    budget = 1 if ctx.quick else 12
+    budget = 1 if ctx.quick else 8
     rc, out = c.run_bin(binp, ["cases", ctx.seed, budget], timeout=2400)
     if rc != 0:
         ctx.violation({"layer": "harness run", "output": out[-2000:]}, "harness crashed", no_input=True)
@@ -291,7 +318,8 @@ def run(ctx):
         meta.append(("label", nm, None))
     t0 = time.time()
     try:
-        terms = c.coq_eval(ctx, "sigma", PREAMBLE, exprs, shard=max(20, len(exprs) // 16 + 1), timeout=1500)
+        raw = c.coq_eval(ctx, "sigma", PREAMBLE, exprs, shard=max(20, len(exprs) // 16 + 1), timeout=1500, parse=False)
+        terms = [c.parse_coq_term(b) if m[0] == "label" else parse_hexout(b) for m, b in zip(meta, raw)]
     except Exception as e:  # model no longer evaluates: broken tie
         ctx.violation({"layer": "model evaluation (Crypto/SigmaExec.v)", "error": repr(e)[-1500:]},
                       "the Coq model could not be evaluated", no_input=True)
@@ -300,8 +328,10 @@ def run(ctx):
     n_corr = n_pert_corr = 0
     if terms is not None:
         alltoks = []
-        for t in terms:
-            flat_ints(t, alltoks)
+        for m, t in zip(meta, terms):
+            if m[0] != "label" and t is not None:
+                for l in t[1]:
+                    alltoks += l
         pts.need([x for x in alltoks if x >= TOK])
         for (kind_, i, pe), t, e in zip(meta, terms, exprs):
             if kind_ == "label":
@@ -314,10 +344,10 @@ def run(ctx):
             key = "%s/n=%s/%s/%s" % (cs["p"], cs.get("n"), cs.get("variant"), cs.get("k"))
             if kind_ == "honest":
                 n_corr += 1
-                if t == "None" or t[0] != "Some":
+                if t is None or len(t[0]) != 3 or len(t[1]) != 2:
                     viol({"case": cs, "model": str(t)[:300]}, "%s: the model rejects a proof the implementation produced and accepts" % key)
                     continue
-                cm_ok, resp_ok, rel_ok, frame, after = t[1]
+                (cm_ok, resp_ok, rel_ok), (frame, after) = t
                 fb, ab_ = pts.expand(frame), pts.expand(after)
                 problems = []
                 if rel_ok != "true":
@@ -338,11 +368,10 @@ def run(ctx):
             else:
                 n_pert_corr += 1
                 rej = pe[1]
-                if t == "None":
+                if t is None:
                     pred_accept = False
                 else:
-                    _, frame, _ = t[1]
-                    pred_accept = sha3(pts.expand(frame)) == cs["chal"]
+                    pred_accept = sha3(pts.expand(t[1][0])) == cs["chal"]
                 if pred_accept == rej:
                     viol({"case": cs, "perturbation": pe, "model_predicts_accept": pred_accept, "coq_expr": e},
                          "%s: verify on a perturbed proof (%s): implementation %s, model predicts %s" % (
